@@ -676,7 +676,13 @@ func (e *recExporter) Export(_ context.Context, rs []sdklog.Record) error {
 func (e *recExporter) Shutdown(context.Context) error   { return nil }
 func (e *recExporter) ForceFlush(context.Context) error { return nil }
 
-func run(c Case) ([]vk.Violation, vk.Info) {
+func run(c Case) ([]vk.Violation, vk.Info) { return runWith(c, true) }
+
+// runWith runs one case. solo = the case has the process to itself (every
+// sub-check but concurrent_twins): it may then hold the collector back, empty
+// the pools and configure the limits through the environment. With solo ==
+// false nothing process-wide is touched (the limits are passed as options).
+func runWith(c Case, solo bool) ([]vk.Violation, vk.Info) {
 	s := &runState{c: c, seen: map[string]bool{}}
 	// No case may leave process-wide state (the SDK's pooled scratch maps)
 	// behind that a later case - or the minimisation of this one - would see.
@@ -686,7 +692,7 @@ func run(c Case) ([]vk.Violation, vk.Info) {
 	// replay in a fresh process must agree) the collector is held back while
 	// such a case runs (soft memory limit as the safety net) and the pools are
 	// emptied when a case that made a call of 100 or more attributes ends.
-	if c.hasBulk() {
+	if solo && c.hasBulk() {
 		gc := debug.SetGCPercent(-1)
 		lim := debug.SetMemoryLimit(3 << 30)
 		defer func() {
@@ -696,7 +702,7 @@ func run(c Case) ([]vk.Violation, vk.Info) {
 	}
 	defer func() {
 		p := recover()
-		if p != nil || s.fatal || s.hf.maxCall >= 100 {
+		if solo && (p != nil || s.fatal || s.hf.maxCall >= 100) {
 			flushPools()
 		}
 		if p != nil {
@@ -740,7 +746,16 @@ func run(c Case) ([]vk.Violation, vk.Info) {
 			}
 		}}
 		exp := &recExporter{}
-		opts, restore := limitConfig(c)
+		var opts []sdklog.LoggerProviderOption
+		restore := func() {}
+		if solo {
+			opts, restore = limitConfig(c)
+		} else {
+			if c.Config != "" {
+				panic("c17: a case that shares the process configures its limits by option")
+			}
+			opts = []sdklog.LoggerProviderOption{sdklog.WithAttributeCountLimit(c.CountLimit), sdklog.WithAttributeValueLengthLimit(c.LenLimit)}
+		}
 		opts = append(opts,
 			sdklog.WithResource(resource.Empty()),
 			sdklog.WithProcessor(proc),
@@ -826,6 +841,11 @@ func run(c Case) ([]vk.Violation, vk.Info) {
 	info.ClassIf(v.multibyteFits, "bytes_over_limit_characters_within")
 	info.ClassIf(v.shortInvalidKept, "invalid_utf8_within_byte_limit_kept")
 	info.ClassIf(v.nestedDupMap, "held_value_offered_with_duplicate_nested_keys")
+	for _, d := range []int{9, 17, 32, 33, 65} {
+		info.ClassIf(v.deepestTruncated >= d, fmt.Sprintf("string_truncated_under>=%d_levels_of_slices/maps", d))
+		info.ClassIf(v.deepestDupMap >= d, fmt.Sprintf("duplicate_nested_keys_under>=%d_levels", d))
+	}
+	info.ClassIf(v.deepestHeld >= 33, "held_value_nested>=33_deep")
 	info.ClassIf(h.clones > 0, "cloned")
 	info.ClassIf(h.fresh > 0, "second_unrelated_record")
 	info.ClassIf(len(h.editedAfterFork) >= 2, "two_or_more_records_edited_side_by_side")
@@ -909,9 +929,9 @@ var known = map[string]func(Case, vk.Violation) bool{
 func TestRecordModel(t *testing.T) {
 	vk.Run(t, vk.Spec[Case]{
 		Property: "C17", Check: "record_model",
-		Rule: "count limit in {-1,0,1,2,3,5,6,7,128} x length limit in {-1,0,1,3,8}; 1..12 SetAttributes/AddAttributes/Clone/new-record steps (0..10 kvs each, key alphabets of 2/7/12 keys + empty/invalid keys, every log.Value kind, nesting depth <= 3, hostile/invalid strings) on a logtest.RecordFactory record and up to three more records (clones or unrelated ones), every record compared after every step with its own ordered-map-with-capacity model and with its previous fingerprint when the step was not a call on it; hostile caller: arguments lent in exact / spare-capacity / reused scratch / the previous call's very slice (also to another record), scribbled over after a generated fraction of calls and all of them at the end of the case; " +
+		Rule: "count limit in {-1,0,1,2,3,5,6,7,128} x length limit in {-1,0,1,3,8}; 1..12 SetAttributes/AddAttributes/Clone/new-record steps (0..10 kvs each, key alphabets of 2/7/12 keys + empty/invalid keys, every log.Value kind, nesting depth <= 3 and, for 1 value in 80, a chain of 1..127 slice / map levels (corners around 8, 16, 32, 33, 64) over a string 1-3 characters beyond the limit, hostile/invalid strings) on a logtest.RecordFactory record and up to three more records (clones or unrelated ones), every record compared after every step with its own ordered-map-with-capacity model and with its previous fingerprint when the step was not a call on it; hostile caller: arguments lent in exact / spare-capacity / reused scratch / the previous call's very slice (also to another record), scribbled over after a generated fraction of calls and all of them at the end of the case; " +
 			"non-trivial = a later call overwrites a key that is already held, or the count limit is reached in the middle of a call, or a nested string is truncated",
-		Quick: 60000, Thorough: 600000,
+		Quick: 30000, Thorough: 400000,
 		Gen: func(t *rapidT) Case { return genCase(t, "direct", false) }, Run: run,
 		Known: known,
 	})
@@ -922,7 +942,7 @@ func TestEmitModel(t *testing.T) {
 		Property: "C17", Check: "emit_model",
 		Rule: "same limits; an API log.Record carrying 0..12 attributes is emitted through a LoggerProvider configured with the limits - by the two options (half of the cases), by the two OTEL_LOGRECORD_ATTRIBUTE_* environment variables, by both with different values (the option wins), one of each, or not at all (defaults 128 / unlimited) - (the SDK adds them one by one); the first processor checks the record, applies 0..8 further Set/Add/Clone/new-record steps inside OnEmit with the same hostile caller (checked after every step); a SimpleProcessor + recording exporter registered after it must see the same final record; the slice given to the API record is scribbled before Emit in a fraction of cases; in a third of the cases the same API record is emitted a second time and the exporter's Clone of the first record must not change; " +
 			"non-trivial = as for record_model",
-		Quick: 30000, Thorough: 300000,
+		Quick: 15000, Thorough: 200000,
 		Gen: func(t *rapidT) Case { return genCase(t, "emit", false) }, Run: run,
 		Known: known,
 	})
@@ -933,7 +953,7 @@ func TestStringLimits(t *testing.T) {
 		Property: "C17", Check: "string_limits",
 		Rule: "length limit in {0,1,3,8} (-1 rarely; one case in five log-uniform in 1..511 with strings of limit-1..limit+2 mixed-width characters, optionally with invalid bytes around the cut), count limit mostly unlimited/128; 1..5 steps whose values are strings or slices/maps of strings near the limit (repeated multi-byte runes, literal U+FFFD, invalid bytes at every position, exactly limit / limit+1 characters), first step often a 7-key Set so that later calls overwrite inline and overflow keys; " +
 			"non-trivial = as for record_model",
-		Quick: 40000, Thorough: 400000,
+		Quick: 20000, Thorough: 280000,
 		Gen: func(t *rapidT) Case { return genCase(t, "direct", true) }, Run: run,
 		Known: known,
 	})
@@ -948,7 +968,7 @@ func TestBulkCalls(t *testing.T) {
 		Property: "C17", Check: "bulk_calls",
 		Rule: "size as a dimension: count limit from the corner set or log-uniform in 1..16383, length limit from the corner set or log-uniform in 1..511; one or two Set/Add calls (3 in 4 cases direct, else also the emitted API record) carry 1..16383 attributes on a log scale (keys k<j> walking an arithmetic progression, optionally wrapping so that keys repeat inside the call; element i carries i), surrounded by 1..11 small calls on the same and on up to three other records whose keys are the low keys of that key space and a few keys anywhere in it; same model, same hostile caller, every record checked after every step; " +
 			"non-trivial = as for record_model",
-		Quick: 1500, Thorough: 20000,
+		Quick: 1000, Thorough: 14000,
 		Gen: func(t *rapidT) Case {
 			if rapid.IntRange(0, 3).Draw(t, "emit_path") == 0 {
 				return genBulkCase(t, "emit")
